@@ -255,7 +255,7 @@ async def run_history(
             rest_wo = [w for w in rest if not IDRESP.match(w)]
             verdict = _check_id(pred, rec, model, resp)
             if verdict is not None:
-                addressing = verdict[0] in ("id-answer-misaddressed", "id-answer-count")
+                addressing = verdict[0] in ("id-answer-misaddressed", "id-answer-count", "id-refused-while-free")
                 if "idalloc" in aspects or ("writes" in aspects and addressing):
                     return bad(verdict[0], verdict[1], idx), info
                 info["diverged"] = True
